@@ -6,11 +6,11 @@ import TapkeeVerif.Model.QuadTree
 /-!
 Geometry of cells and the insertion invariant `WF` of the quadtree model (C18).
 
-`WF data t is` : `is` is the list of indices whose `insert` was accepted by the node `t` (passed its containment
-test), in insertion order.  It pins `cum_size`, the centre of mass, the residents and — recursively — the lists of the
-four children, which are the *geometric routes* (`first child in NW, NE, SW, SE order whose closed cell contains the point`)
-of the node's list **minus the coincident points the node absorbed while it still was a leaf** (`dups`): those are
-counted by the node but never handed down by `subdivide()`.
+`WF data t ps` : `ps` is the list of the coordinates of the points whose `insert` was accepted by the node `t` (passed its
+containment test), in insertion order.  It pins `cum_size`, the centre of mass, the residents and — recursively — the
+lists of the four children, which are the *geometric routes* (`first child in NW, NE, SW, SE order whose closed cell
+contains the point`) of the node's list.  (The lists are lists of coordinates, not of indices: `subdivide()` hands the
+resident's index down once per coincident point it stands for.)
 -/
 namespace TapkeeVerif.QuadTree
 
@@ -70,31 +70,38 @@ def rSE (b : Cell K) (p : K × K) : Bool :=
     (cellSE b).containsPoint p
 
 /-- `cum_size • com = Σ routed points` -/
-def MassOK (data : Nat → K × K) (cum : Nat) (com : K × K) (is : List Nat) : Prop :=
-  (cum : K) * com.1 = (is.map fun i => (data i).1).sum ∧ (cum : K) * com.2 = (is.map fun i => (data i).2).sum
+def MassOK (cum : Nat) (com : K × K) (ps : List (K × K)) : Prop :=
+  (cum : K) * com.1 = (ps.map Prod.fst).sum ∧ (cum : K) * com.2 = (ps.map Prod.snd).sum
 
-/-- the insertion invariant (see the file header) -/
-def WF (data : Nat → K × K) : Tree K → List Nat → Prop
-  | .leaf _ cum _ none, is => is = [] ∧ cum = 0
-  | .leaf b cum com (some r), is =>
-    ∃ dups, is = r :: dups ∧ cum = is.length ∧ MassOK data cum com is ∧
-      ∀ i ∈ is, b.containsPoint (data i) = true ∧ data i = data r
-  | .node b cum com nw ne sw se, is =>
-    ∃ r dups rest, is = r :: (dups ++ rest) ∧ cum = is.length ∧ MassOK data cum com is ∧
-      (∀ i ∈ is, b.containsPoint (data i) = true) ∧ (∀ d ∈ dups, data d = data r) ∧
-      (∃ j ∈ rest, data j ≠ data r) ∧
+/-- the insertion invariant = the mass / centre-of-mass statement of C18, for every cell (see the file header) -/
+def WF (data : Nat → K × K) : Tree K → List (K × K) → Prop
+  | .leaf _ cum _ none, ps => ps = [] ∧ cum = 0
+  | .leaf b cum com (some r), ps =>
+    ps ≠ [] ∧ cum = ps.length ∧ MassOK cum com ps ∧ ∀ p ∈ ps, b.containsPoint p = true ∧ p = data r
+  | .node b cum com nw ne sw se, ps =>
+    cum = ps.length ∧ MassOK cum com ps ∧ (∀ p ∈ ps, b.containsPoint p = true) ∧
+      (∃ p ∈ ps, ∃ q ∈ ps, p ≠ q) ∧
       nw.cell = cellNW b ∧ ne.cell = cellNE b ∧ sw.cell = cellSW b ∧ se.cell = cellSE b ∧
-      WF data nw ((r :: rest).filter fun i => rNW b (data i)) ∧
-      WF data ne ((r :: rest).filter fun i => rNE b (data i)) ∧
-      WF data sw ((r :: rest).filter fun i => rSW b (data i)) ∧
-      WF data se ((r :: rest).filter fun i => rSE b (data i))
+      WF data nw (ps.filter fun p => rNW b p) ∧
+      WF data ne (ps.filter fun p => rNE b p) ∧
+      WF data sw (ps.filter fun p => rSW b p) ∧
+      WF data se (ps.filter fun p => rSE b p)
 
 theorem WF_emptyLeaf (data : Nat → K × K) (b : Cell K) : WF data (emptyLeaf b) [] := by
   simp [emptyLeaf, WF]
 
+theorem WF.cum_eq {data : Nat → K × K} {t : Tree K} {ps : List (K × K)} (h : WF data t ps) :
+    t.cum = ps.length := by
+  cases t with
+  | leaf b cum com res =>
+    cases res with
+    | none => simp only [WF] at h; simp [Tree.cum, h.1, h.2]
+    | some r => exact h.2.1
+  | node => exact h.1
+
 /-- the online update keeps `cum • com = Σ` -/
-theorem massOK_upd (data : Nat → K × K) (cum : Nat) (com : K × K) (is : List Nat) (i : Nat)
-    (h : MassOK data cum com is) : MassOK data (cum + 1) (updCom (cum + 1) com (data i)) (is ++ [i]) := by
+theorem massOK_upd (cum : Nat) (com : K × K) (ps : List (K × K)) (p : K × K)
+    (h : MassOK cum com ps) : MassOK (cum + 1) (updCom (cum + 1) com p) (ps ++ [p]) := by
   obtain ⟨h1, h2⟩ := h
   have hc : ((cum + 1 : Nat) : K) ≠ 0 := by
     have : (0 : K) < ((cum + 1 : Nat) : K) := by exact_mod_cast Nat.succ_pos cum
